@@ -40,19 +40,21 @@ theorem gen_consts_ok : constsOk genConsts = true := by decide
 
 /-- **3 + 2d + k**: `ssdp:all` (any letter case) is answered with one message for the root device,
     two per device and one per service -/
-theorem all_count (t : DevTree) (st : Str) (h : lower st = ssdpAll) :
-    (buildResponses t st).length = 1 + 2 * (allDevices t).length + (allServices t).length := by
-  simp only [buildResponses, h, if_true, List.length_cons, List.length_append, List.length_map]
-  omega
+theorem all_count (t : DevTree) (ar : Bool) (st : Str) (h : lower st = ssdpAll) :
+    (buildResponses t ar st).length
+      = 1 + 2 * (allDevices t).length + (allServices t).length + (if ar then 1 else 0) := by
+  cases ar <;>
+    simp only [buildResponses, h, if_true, List.length_cons, List.length_append, List.length_map,
+      List.length_nil, Bool.false_eq_true, if_false] <;> omega
 
 /-- **answers = advertisements = byebyes**: the (ST, USN) pairs answered to `ssdp:all` are, as a
     multiset, the (NT, USN) pairs of the `ssdp:alive` cycle, which are literally the pairs revoked
     with `ssdp:byebye`; and that list is the UDA table, in order -/
 theorem answers_eq_advertisements (t : DevTree) (st : Str) (h : lower st = ssdpAll) :
-    (buildResponses t st).Perm (advertisements t) ∧ byebyes t = advertisements t
+    (buildResponses t false st).Perm (advertisements t) ∧ byebyes t = advertisements t
     ∧ advertisements t = (expAll t).map toMsg := by
   refine ⟨?_, rfl, advertisements_eq t⟩
-  simp only [buildResponses, h, if_true, advertisements]
+  simp only [buildResponses, h, if_true, advertisements, Bool.false_eq_true, if_false, List.append_nil]
   refine List.Perm.cons _ ?_
   refine List.Perm.append ?_ (List.Perm.refl _)
   exact perm_map_map_flatMap respUdn (respDevType none) (allDevices t)
@@ -60,12 +62,12 @@ theorem answers_eq_advertisements (t : DevTree) (st : Str) (h : lower st = ssdpA
 /-- **every USN begins with the UDN of the device it describes** (table entries; by
     `target_dispatch` / `answers_eq_advertisements` these are the USNs of every emitted message),
     and the library's `udn_from_usn` recovers exactly that UDN -/
-theorem usn_begins_with_udn {t : DevTree} (hw : wfTree t = true) (st : Str) :
+theorem usn_begins_with_udn {t : DevTree} (hw : wfTree t = true) (ar : Bool) (st : Str) :
     (∀ e ∈ expAll t, startsWith e.usn e.dev = true ∧ udnFromUsn e.usn = some e.dev) ∧
-    (∀ e ∈ (expected t st).1, startsWith e.usn e.dev = true ∧ udnFromUsn e.usn = some e.dev) := by
+    (∀ e ∈ (expected t ar st).1, startsWith e.usn e.dev = true ∧ udnFromUsn e.usn = some e.dev) := by
   have w := WF.of_wfTree hw
   exact ⟨fun e he => ⟨(expAll_ok w e he).usn_prefix, (expAll_ok w e he).udn_of_usn⟩,
-         fun e he => ⟨(expected_ok w st e he).usn_prefix, (expected_ok w st e he).udn_of_usn⟩⟩
+         fun e he => ⟨(expected_ok w ar st e he).usn_prefix, (expected_ok w ar st e he).udn_of_usn⟩⟩
 
 /-! ### search-target dispatch -/
 
@@ -77,30 +79,43 @@ theorem version_matching {ty b : Str} {w : Nat} (h : typeParts (lower ty) = some
     ∧ matchTypeVersions ty (lower st) = typeMatches ty st :=
   ⟨matchTypeVersions_of_parts h st, matchTypeVersions_eq_typeMatches (by rw [h]; rfl) st⟩
 
-/-- **target dispatch**: for every well-formed tree and EVERY string `st`, the answers are — as a
-    multiset of (ST, USN), ST compared ignoring ASCII case where it echoes the request — exactly
-    the table prescribed for `st`: everything for `ssdp:all`, the root message for
-    `upnp:rootdevice`, the UUID message of each device whose UDN is `st`, one message (echoing
-    `st`) per device / service whose type is `st`'s type at an equal or higher version, and nothing
-    for anything else -/
-theorem target_dispatch {t : DevTree} (hw : wfTree t = true) (st : Str) :
-    ((buildResponses t st).map (msgKey (expected t st).2)).Perm
-      ((expected t st).1.map (expKey (expected t st).2)) :=
-  dispatch_perm (WF.of_wfTree hw) st
+/-- **target dispatch**: for every well-formed tree — devices may share UDNs or types, services may
+    repeat, a device type may equal a service type — both settings of the always-root option and
+    EVERY string `st`, the answers are, as a multiset of (ST, USN) (ST compared ignoring ASCII case
+    where it echoes the request), exactly the table prescribed for `st`: everything for `ssdp:all`,
+    the root message for `upnp:rootdevice`, otherwise one UUID message per device whose UDN is `st`
+    plus one message (echoing `st`) per device and per service whose type is `st`'s type at an equal
+    or higher version, nothing for anything else; plus one root message when the option is on -/
+theorem target_dispatch {t : DevTree} (hw : wfTree t = true) (ar : Bool) (st : Str) :
+    ((buildResponses t ar st).map (msgKey (expected t ar st).2)).Perm
+      ((expected t ar st).1.map (expKey (expected t ar st).2)) :=
+  dispatch_perm (WF.of_wfTree hw) ar st
 
-/-- … in particular `upnp:rootdevice` gets exactly the root message, and a target for which the
-    table is empty (foreign UUID, foreign or too-high type version, malformed) gets nothing -/
+/-- … in particular (option off) `upnp:rootdevice` gets exactly the root message, a target for
+    which the table is empty (foreign UUID, foreign or too-high type version, malformed) gets
+    nothing, and the number of answers to a type target is the number of devices plus the number of
+    services offering that type at the requested or a higher version (multiset form of "one per
+    matching device / service") -/
 theorem target_dispatch_cases {t : DevTree} (hw : wfTree t = true) (st : Str) :
-    (lower st = rootDevice → buildResponses t st = [respRoot t]) ∧
-    ((expected t st).1 = [] → buildResponses t st = []) := by
-  constructor
+    (lower st = rootDevice → buildResponses t false st = [respRoot t]) ∧
+    ((expected t false st).1 = [] → buildResponses t false st = []) ∧
+    (lower st ≠ ssdpAll → lower st ≠ rootDevice →
+      (buildResponses t false st).length
+        = ((allDevices t).filter fun d => lower d.udn == lower st).length
+          + ((allDevices t).filter fun d => typeMatches d.type st).length
+          + ((allServices t).filter fun s => typeMatches s.type st).length) := by
+  refine ⟨?_, ?_, ?_⟩
   · intro h
     have h2 : rootDevice ≠ ssdpAll := by decide
     simp [buildResponses, h, h2]
   · intro h
-    have := target_dispatch hw st
+    have := target_dispatch hw false st
     rw [h] at this
     simpa using this.length_eq
+  · intro h1 h2
+    have := (target_dispatch hw false st).length_eq
+    simp [expected, expectedBase, h1, h2] at this
+    omega
 
 /-! ### once, in the window, to the requester -/
 
@@ -111,7 +126,7 @@ theorem target_dispatch_cases {t : DevTree} (hw : wfTree t = true) (st : Str) :
 theorem sent_once_in_window {k : Consts} (hk : constsOk k = true) (t : DevTree) (now : Int) (r : Req)
     (sel : Option Nat) (hr : isMSearch r = true) :
     ∃ sends, answer k t now r sel = some sends ∧
-      sends.map (·.msg) = buildResponses t (r.st.getD []) ∧
+      sends.map (·.msg) = buildResponses t k.alwaysRoot (r.st.getD []) ∧
       ∀ s ∈ sends, now ≤ s.time ∧ s.time ≤ now + windowMs r.mx :=
   answer_spec (ConstsOk.of_bool hk) t now r sel hr
 
@@ -160,15 +175,15 @@ theorem announce_cycle (k : Consts) (t : DevTree) (n i : Nat) (h : i < n) :
     answer, any `ssdp:alive`, any `ssdp:byebye` (after its alive) — is reported by the listener
     model as the device the message describes, under the message's own ST/NT, at the description URL -/
 theorem listener_accepts {t : DevTree} (hw : wfTree t = true) {loc : Str} (hl : validLocation loc = true) :
-    (∀ st, ∀ m ∈ buildResponses t st, ∃ e ∈ (expected t st).1, m.usn = e.usn ∧
+    (∀ ar st, ∀ m ∈ buildResponses t ar st, ∃ e ∈ (expected t ar st).1, m.usn = e.usn ∧
         hearSearch m.st m.usn loc = ⟨true, e.dev, m.st, loc, 0⟩) ∧
     (∀ m ∈ advertisements t, ∃ e ∈ expAll t, m = toMsg e ∧
         hearAlive m.st m.usn loc = ⟨true, e.dev, m.st, loc, 1⟩ ∧
         hearByebye m.st m.usn loc = ⟨true, e.dev, m.st, loc, 2⟩) := by
   have w := WF.of_wfTree hw
   constructor
-  · intro st m hm
-    obtain ⟨e, he, heok, husn, hst, _⟩ := response_entry w st hm
+  · intro ar st m hm
+    obtain ⟨e, he, heok, husn, hst, _⟩ := response_entry w ar st hm
     exact ⟨e, he, husn, by rw [husn]; exact hearSearch_ok heok hst hl⟩
   · intro m hm
     rw [advertisements_eq] at hm
